@@ -4,7 +4,7 @@
    verify is C02/C04/C05. *)
 From Coq Require Import Bool List NArith Lia.
 From Coq.Strings Require Import Byte.
-From GoUefi Require Import Base.Bytes Base.Outcome Base.Reader Model.WinCert Model.PE Proofs.PEProofs Proofs.PESignProofs Proofs.PEReparse.
+From GoUefi Require Import Base.Bytes Base.Outcome Base.Reader Model.WinCert Model.PE Proofs.PEProofs Proofs.PESignProofs Proofs.PEReparse Properties.C01.
 Import ListNotations.
 Local Open Scope N_scope.
 
@@ -136,3 +136,21 @@ Print Assumptions C03_signed_from_unsigned.
 Print Assumptions C03_dd_inv_meaning.
 Print Assumptions C03_history.
 Print Assumptions C03_digest_invariant.
+
+(* non-vacuity: the example image of C01 (445 bytes, no table) meets the hypotheses
+   of C03_resign_unsigned, and signing it twice with 100- and 7-byte blobs gives a
+   456 + 112 + 16 byte file whose re-parse lists both entries *)
+Example C03_example :
+  match read_layout C01.ex_img, pe_parse true C01.ex_img with
+  | Some L, Ret st0 =>
+      wf_layout_b L = true /\ l_certsize L = 0 /\ (l_dd4 L + 8 <=? l_opt L + l_soo L) = true /\
+      let st := fold_left append_signature [repeat x07 100; repeat x08 7] st0 in
+      blen (pe_bytes st) = 576 /\
+      match pe_parse true (pe_bytes st) with
+      | Ret st' => pe_va st' = 448 /\ pe_ddsize st' = 128 /\ hash_content st' = hash_content st0 /\
+                   option_map (fun l => length l) (match pe_signatures st' with Ret l => Some l | _ => None end) = Some 2%nat
+      | _ => False
+      end
+  | _, _ => False
+  end.
+Proof. vm_compute. repeat split. Qed.
